@@ -88,6 +88,7 @@ def run(ctx, focus='C11'):
         # the loader itself: the records of the three files the trainer just wrote (read here as text in the ruleset's encoding, a line
         # being `level<TAB>n-gram`) go through the Lean model of `_load_ngrams` / `_load_length` (`of.load`: the `loadIp` / `loadCp` /
         # `loadLn` of C07_omen_files_load); the answer is compared with the dicts the real `load_rules` built from the same files
+        loader_compared = False
         try:
             def recs(name, enc_):
                 out_ = []
@@ -105,6 +106,7 @@ def run(ctx, focus='C11'):
                 want_cp = ';'.join(f"{enc(pre)}@{L}={enc(''.join(cs))}" for pre, d_ in g['cp'].items() for L, cs in d_.items())
                 exp.append(f"ip={want_ip} ln={want_ln} cp={want_cp}")
                 dist['loader_runs_compared'] = dist.get('loader_runs_compared', 0) + 1
+                loader_compared = True
         except (OSError, UnicodeError, KeyError):
             pass
         # the guesser's view: enumerate levels while they stay small
@@ -210,7 +212,8 @@ def run(ctx, focus='C11'):
                 dist['out_of_alphabet'] += 1
             gl = glevel.get(s)
             ops.append(f"ot.level {enc(s)}")
-            exp.append(f"t={t} s={sl} g={t}")
+            # `f`: OmenScorer.parse of the model on the dictionaries the model of _load_omen built from the same file records
+            exp.append(f"t={t} s={sl} g={t} f={sl if loader_compared else 'na'}")
             if t != sl:
                 viol.append({'property': 'C11', 'kind': 'trainer-scorer-differ', 'string': s, 'trainer': t, 'scorer': sl,
                              'witness': {'passwords': pws, 'ngram': ngram, 'alphabet_size': asize, 'max_length': maxlen, 'string': s}})
